@@ -185,6 +185,25 @@ class Ctx:
             raise Machinery("TLC failed on %s %s (rc=%d):\n%s" % (module, cfg, p.returncode, tail(out)))
         return res
 
+    # ---------------------------------------------------------------- TLAPS
+    def tlaps(self, module, timeout=900):
+        """Check the proofs of spec/<module>.tla with tlapm; returns (obligations, proved)."""
+        d = self.path("tlaps_" + module)
+        os.makedirs(d, exist_ok=True)
+        shutil.copyfile(os.path.join(self.specdir, module + ".tla"), os.path.join(d, module + ".tla"))
+        try:
+            p = subprocess.run(["tlapm", "--threads", "16", "--cleanfp", module + ".tla"], cwd=d, stdout=subprocess.PIPE,
+                               stderr=subprocess.STDOUT, text=True, timeout=timeout)
+        except subprocess.TimeoutExpired:
+            raise Machinery("tlapm timeout on %s" % module)
+        m = re.search(r"All (\d+) obligations? proved", p.stdout)
+        if not m:
+            raise Machinery("tlapm did not prove %s:\n%s" % (module, tail(p.stdout)))
+        n = int(m.group(1))
+        log("tlapm %s: all %d obligations proved" % (module, n))
+        self.extra["tlaps_" + module] = {"obligations": n, "discharged": n, "checker_cmd": "tlapm --threads 16 --cleanfp %s.tla" % module}
+        return n, n
+
     # ---------------------------------------------------------------- harness
     def harness(self, args, timeout=1800, env=None, check=True):
         e = goenv()
